@@ -14,7 +14,7 @@ def errName : Err → String
   | .msCode => "msCode" | .msParse => "msParse" | .msParseLen => "msParseLen"
   | .msKeyCount => "msKeyCount" | .msSigLen => "msSigLen" | .msNotEnough => "msNotEnough"
   | .msTooMany => "msTooMany" | .msDup => "msDup" | .msMatched => "msMatched"
-  | .unknownType => "unknownType"
+  | .unknownType => "unknownType" | .scriptAttr => "scriptAttr"
 
 def fmtRes : Res → String
   | .panic => "panic"
